@@ -503,6 +503,24 @@ pub fn open_mode<'a>(
     Ok(msg)
 }
 
+/// Open a message with the secret of recipient number `idx` alone (its password, or its key).
+pub fn open_recipient<'a>(cfg: &MsgCfg, msg: Message<'a>, idx: usize) -> pgp::errors::Result<Message<'a>> {
+    let mut msg = match cfg.esks[idx] {
+        EskSpec::Password(_) => msg.decrypt_with_password(&Password::from(PASSWORDS[idx % 3]))?,
+        EskSpec::Key(k, _) => {
+            let c = cert(k, 3);
+            msg.decrypt(&Password::empty(), &c)?
+        }
+    };
+    if msg.is_compressed() {
+        msg = msg.decompress()?;
+    }
+    if cfg.compression != 0 && msg.is_signed() {
+        msg = msg.decompress()?;
+    }
+    Ok(msg)
+}
+
 /// Full reader pipeline on `bytes`.
 pub fn read_back(
     cfg: &MsgCfg,
